@@ -100,6 +100,8 @@ enum Op {
     ReadToEnd,
     ReadText,
     Into(usize),
+    /// like `Into`, but the consumer never clears the buffer it hands in (legal: clearing only saves memory)
+    IntoKeep(usize),
     Async(usize, Option<usize>),
     /// read_to_end_into over pieces of the given size with a fault at the given refill call: Interrupted (false) / hard error (true)
     IntoFault(usize, usize, bool),
@@ -174,9 +176,10 @@ fn run_op(input: &[u8], cfg: u8, start_end: u64, name: u8, op: Op) -> Result<Out
                 out.cfg_after = cfg_bits(reader.config());
                 rest!(reader, Some(reader.read_event()));
             }
-            Op::Into(_) | Op::IntoFault(..) => {
+            Op::Into(_) | Op::IntoKeep(_) | Op::IntoFault(..) => {
+                let keep = matches!(op, Op::IntoKeep(_));
                 let script = match op {
-                    Op::Into(piece) => Script::pieces(piece),
+                    Op::Into(piece) | Op::IntoKeep(piece) => Script::pieces(piece),
                     Op::IntoFault(piece, at, hard) => {
                         let mut s = Script::pieces(piece);
                         s.faults.push((at, if hard { Fault::Hard(std::io::ErrorKind::Other) } else { Fault::Interrupted }));
@@ -188,7 +191,7 @@ fn run_op(input: &[u8], cfg: u8, start_end: u64, name: u8, op: Op) -> Result<Out
                 apply_cfg(reader.config_mut(), cfg);
                 let mut buf = Vec::new();
                 for _ in 0..cap {
-                    buf.clear();
+                    if !keep { buf.clear(); }
                     match reader.read_event_into(&mut buf) {
                         Ok(Event::Start(_)) if reader.buffer_position() == start_end => {
                             out.found = true;
@@ -202,10 +205,10 @@ fn run_op(input: &[u8], cfg: u8, start_end: u64, name: u8, op: Op) -> Result<Out
                     return out;
                 }
                 out.cfg_before = cfg_bits(reader.config());
-                buf.clear();
+                if !keep { buf.clear(); }
                 out.result = reader.read_to_end_into(QName(&nm), &mut buf).map(|s| (s.start, s.end)).map_err(|e| format!("{:?}", e));
                 out.cfg_after = cfg_bits(reader.config());
-                rest!(reader, { buf.clear(); Some(reader.read_event_into(&mut buf)) });
+                rest!(reader, { if !keep { buf.clear(); } Some(reader.read_event_into(&mut buf)) });
                 out.fill_calls = reader.get_ref().calls;
             }
             Op::Async(piece, pending) => {
@@ -325,7 +328,7 @@ pub fn run(ctx: &Ctx) {
         "documents: every token sequence up to N over {<a> </a> </a_> <a/> <b> </b> <b/> t _ <!--</a>--> <![CDATA[</a>]]>} that is \
          well-formed by the token-level tag stack, plus every truncation of it at every byte; for EVERY start tag (and every empty \
          tag when expansion is on) the reader is advanced to that Start event, then each of read_to_end, read_text (slice), \
-         read_to_end_into (piece sizes 1, 2, whole), read_to_end_into_async (piece sizes 1, whole; thorough: every placement of one \
+         read_to_end_into (piece sizes 1, 2, whole; also with a user buffer that is never cleared), read_to_end_into_async (piece sizes 1, whole; thorough: every placement of one \
          Pending) is called, and read_to_end_into with an Interrupted / a hard I/O error at every refill index of the complete documents, under the 32 combinations of check_end_names x trim_text_start x trim_text_end x expand_empty_elements x \
          trim_markup_names_in_closing_tags. Oracle from the token structure: span == (end of start tag, '<' of the matching end tag) \
          (empty for an expanded empty element); read_text == input[span]; all following events and positions equal those of an \
@@ -396,7 +399,7 @@ pub fn run(ctx: &Ctx) {
                             }
                             _ => continue,
                         };
-                        let mut ops = vec![Op::ReadToEnd, Op::ReadText, Op::Into(1), Op::Into(2), Op::Into(0), Op::Async(1, None), Op::Async(0, None)];
+                        let mut ops = vec![Op::ReadToEnd, Op::ReadText, Op::Into(1), Op::Into(2), Op::Into(0), Op::Async(1, None), Op::Async(0, None), Op::IntoKeep(1), Op::IntoKeep(0)];
                         if pend && len == n {
                             for p in 0..(2 * n + 4) {
                                 ops.push(Op::Async(1, Some(p)));
@@ -768,6 +771,8 @@ fn parse_op(s: &str) -> Op {
         Op::ReadToEnd
     } else if s.starts_with("ReadText") {
         Op::ReadText
+    } else if s.starts_with("IntoKeep") {
+        Op::IntoKeep(nums[0])
     } else if s.starts_with("IntoFault") {
         Op::IntoFault(nums[0], nums[1], s.contains("true"))
     } else if s.starts_with("Into") {
